@@ -42,6 +42,13 @@ CALLERS = [
     ('service', 'svc:svcproj', 'service', {}),
     ('system-admin', 'u3:%s' % OWN, 'admin',
      {'OpenStack-System-Scope': 'all'}),
+    # the same identity first with, then without the role (role revoked,
+    # restricted token): a decision must never outlive the roles it was
+    # based on.  Order matters: each pair runs back to back.
+    ('admin-then', 'u9:%s' % OWN, 'admin', {}),
+    ('revoked-admin', 'u9:%s' % OWN, 'member,reader', {}),
+    ('service-then', 'u8:svcproj', 'service', {}),
+    ('revoked-service', 'u8:svcproj', None, {}),
 ]
 METHODS = ['GET', 'PUT', 'POST', 'DELETE', 'PATCH', 'HEAD']
 
@@ -60,8 +67,8 @@ def expected_default(op, caller):
         return 'allow' if 'service' in roles else 'deny'
     if 'admin' in roles or 'service' in roles:
         return 'allow'
-    if op == ('GET', '/usages') and 'reader' in roles and \
-            name.endswith('-own'):
+    if op == ('GET', '/usages') and 'reader' in roles and (
+            name.endswith('-own') or name == 'revoked-admin'):
         return 'allow'
     return 'deny'
 
